@@ -203,16 +203,33 @@ pub fn get_extension(s: &str) -> String {
     }
 }
 
-/// A scaled size. Decimal fractions are not exact in binary floating point: 2.01 * 1000.0 is
-/// 2009.9999999999998, which must not be cut to 2009. A product that is a whole number up to the precision of
-/// the multiplication is that number.
-fn snap(size: f64) -> f64 {
-    let nearest = size.round();
-    if (size - nearest).abs() <= nearest.abs() * 4.0 * f64::EPSILON {
-        nearest
-    } else {
-        size
+/// A number written in decimal notation, times the multiplier of its unit. The arithmetic is done on the
+/// decimal digits, not in binary floating point: 2.01 * 1000.0 is 2009.9999999999998 there, which is 2010 bytes,
+/// while 1.7509 * 1024^4 = 1925134909072.9984 really is no whole number of bytes - no rounding tolerance can
+/// tell the two apart.
+fn scaled(number: &str, multiplier: u128) -> Option<f64> {
+    let size = number.parse::<f64>().ok()?;
+
+    let (negative, digits) = match number.strip_prefix('-') {
+        Some(rest) => (true, rest),
+        None => (false, number.strip_prefix('+').unwrap_or(number)),
+    };
+    let (whole, fraction) = digits.split_once('.').unwrap_or((digits, ""));
+    let plain = !(whole.is_empty() && fraction.is_empty())
+        && whole.len() + fraction.len() <= 24
+        && fraction.len() <= 18
+        && whole.chars().chain(fraction.chars()).all(|c| c.is_ascii_digit());
+    if !plain {
+        // an exponent and the like: the floating-point product
+        return Some(size * multiplier as f64);
     }
+
+    let mantissa = format!("{}{}", whole, fraction).parse::<u128>().ok()?;
+    let divisor = 10u128.pow(fraction.len() as u32);
+    let product = mantissa.checked_mul(multiplier)?;
+    let bytes = (product / divisor) as f64 + (product % divisor) as f64 / divisor as f64;
+
+    Some(if negative { -bytes } else { bytes })
 }
 
 pub fn parse_filesize(s: &str) -> Option<u64> {
@@ -234,87 +251,51 @@ pub fn parse_filesize_exact(s: &str) -> Option<f64> {
     let length = string.len();
 
     if length > 1 && string.ends_with("k") {
-        return match &string[..(length - 1)].parse::<f64>() {
-            Ok(size) => Some(snap(*size * 1024.0)),
-            _ => None,
-        };
+        return scaled(&string[..(length - 1)], 1024);
     }
 
     if length > 2 && string.ends_with("kb") {
-        return match &string[..(length - 2)].parse::<f64>() {
-            Ok(size) => Some(snap(*size * 1000.0)),
-            _ => None,
-        };
+        return scaled(&string[..(length - 2)], 1000);
     }
 
     if length > 3 && string.ends_with("kib") {
-        return match &string[..(length - 3)].parse::<f64>() {
-            Ok(size) => Some(snap(*size * 1024.0)),
-            _ => None,
-        };
+        return scaled(&string[..(length - 3)], 1024);
     }
 
     if length > 1 && string.ends_with("m") {
-        return match &string[..(length - 1)].parse::<f64>() {
-            Ok(size) => Some(snap(*size * 1024.0 * 1024.0)),
-            _ => None,
-        };
+        return scaled(&string[..(length - 1)], 1048576);
     }
 
     if length > 2 && string.ends_with("mb") {
-        return match &string[..(length - 2)].parse::<f64>() {
-            Ok(size) => Some(snap(*size * 1000.0 * 1000.0)),
-            _ => None,
-        };
+        return scaled(&string[..(length - 2)], 1000000);
     }
 
     if length > 3 && string.ends_with("mib") {
-        return match &string[..(length - 3)].parse::<f64>() {
-            Ok(size) => Some(snap(*size * 1024.0 * 1024.0)),
-            _ => None,
-        };
+        return scaled(&string[..(length - 3)], 1048576);
     }
 
     if length > 1 && string.ends_with("g") {
-        return match &string[..(length - 1)].parse::<f64>() {
-            Ok(size) => Some(snap(*size * 1024.0 * 1024.0 * 1024.0)),
-            _ => None,
-        };
+        return scaled(&string[..(length - 1)], 1073741824);
     }
 
     if length > 2 && string.ends_with("gb") {
-        return match &string[..(length - 2)].parse::<f64>() {
-            Ok(size) => Some(snap(*size * 1000.0 * 1000.0 * 1000.0)),
-            _ => None,
-        };
+        return scaled(&string[..(length - 2)], 1000000000);
     }
 
     if length > 3 && string.ends_with("gib") {
-        return match &string[..(length - 3)].parse::<f64>() {
-            Ok(size) => Some(snap(*size * 1024.0 * 1024.0 * 1024.0)),
-            _ => None,
-        };
+        return scaled(&string[..(length - 3)], 1073741824);
     }
 
     if length > 1 && string.ends_with("t") {
-        return match &string[..(length - 1)].parse::<f64>() {
-            Ok(size) => Some(snap(*size * 1024.0 * 1024.0 * 1024.0 * 1024.0)),
-            _ => None,
-        };
+        return scaled(&string[..(length - 1)], 1099511627776);
     }
 
     if length > 2 && string.ends_with("tb") {
-        return match &string[..(length - 2)].parse::<f64>() {
-            Ok(size) => Some(snap(*size * 1000.0 * 1000.0 * 1000.0 * 1000.0)),
-            _ => None,
-        };
+        return scaled(&string[..(length - 2)], 1000000000000);
     }
 
     if length > 3 && string.ends_with("tib") {
-        return match &string[..(length - 3)].parse::<f64>() {
-            Ok(size) => Some(snap(*size * 1024.0 * 1024.0 * 1024.0 * 1024.0)),
-            _ => None,
-        };
+        return scaled(&string[..(length - 3)], 1099511627776);
     }
 
     if length > 1 && string.ends_with("b") {
